@@ -48,6 +48,7 @@ func init() {
 			{ID: "C19-R2", Title: "write, close, then rename; rename only after success", Decides: "either the previous or the new value in full", Floor: 3, Run: c19r2},
 			{ID: "C19-R3", Title: "temp files are invisible to listings", Decides: "other keys / listings are untouched by an interrupted write", Floor: 1, Run: c19r3},
 			{ID: "C19-R4", Title: "one Set per entity / per config key", Decides: "database operations built on Set are atomic per key", Floor: 2, Run: c19r4},
+			{ID: "C19-R5", Title: "only Set renames, only Set/Delete remove; opening and reading change no file (shared with C18-R5)", Decides: "a left-over temporary file is never promoted to a value", Floor: 6, Run: c18r5},
 		},
 	})
 }
